@@ -29,7 +29,7 @@ def make_frame(rng, n=None, factorial=False, nlev=None, cats=None, extra_cols=Tr
     lev["k"] = list(range(1, nlev["k"] + 1))
     if factorial:
         combos = list(itertools.product(*[lev[v] for v in cats]))
-        reps = rng.randint(2, 3)
+        reps = rng.randint(2, 3) if len(combos) > 12 else rng.randint(5, 6)
         rows = combos * reps
         rng.shuffle(rows)
         n = len(rows)
